@@ -6,6 +6,7 @@ import (
 	"io"
 	"net"
 	"sync"
+	"time"
 
 	"github.com/fiorix/go-diameter/v4/diam"
 	"github.com/fiorix/go-diameter/v4/diam/datatype"
@@ -139,6 +140,17 @@ func (s *SimSCTP) SCTPWrite(b []byte, info *sctp.SndRcvInfo) (int, error) {
 	if info != nil {
 		st = info.Stream
 	}
+	if f := s.wfault; f != nil && f.Kind == "stall-temp" {
+		// the send blocks for a while, then fails with a temporary error after k bytes
+		s.wfault = &WriteFault{Kind: "temp", After: f.After}
+		ch := make(chan struct{})
+		s.resume = ch
+		s.e.ParkBegin(true)
+		s.mu.Unlock()
+		s.e.Fault("sctp-write-stall")
+		<-ch
+		s.mu.Lock()
+	}
 	if f := s.wfault; f != nil && f.Kind == "stall" {
 		// the association's send buffer is full: the write parks until the engine resumes it
 		s.wfault = nil
@@ -265,6 +277,7 @@ func c19RunX(e *Env, wide bool, sw *c19SweepCase, park bool) {
 	deferPlan := make([]bool, 7)
 	plan := map[string]uint32{} // marker -> result code to answer with
 	mux := diam.NewServeMux()
+	var connSeen diam.Conn
 	var gates []chan struct{}
 	active := 0
 	overlap := false
@@ -277,6 +290,9 @@ func c19RunX(e *Env, wide bool, sw *c19SweepCase, park bool) {
 	mux.HandleFunc("ALL", func(c diam.Conn, m *diam.Message) {
 		raw, _ := m.Serialize()
 		mu.Lock()
+		if connSeen == nil {
+			connSeen = c
+		}
 		if active > 0 {
 			overlap = true
 		}
@@ -332,9 +348,24 @@ func c19RunX(e *Env, wide bool, sw *c19SweepCase, park bool) {
 	for i := range deferPlan {
 		deferPlan[i] = t.Chance(1, 3)
 	}
-	if _, err := diam.NewConn(msc.(net.Conn), "sim", mux, simDict()); err != nil {
-		e.Harness("NewConn: %v", err)
+	var theConn diam.Conn
+	var lis *SimListener
+	if sw == nil && t.Chance(1, 3) {
+		// accepted by a Server that has a WriteTimeout configured
+		lis = newSimListener(e)
+		srv := &diam.Server{Handler: mux, Dict: simDict(), WriteTimeout: time.Second}
+		go srv.Serve(lis)
+		lis.Connect(msc.(net.Conn))
+		defer lis.Close()
+		e.Act("served-with-write-timeout", "")
+	} else {
+		c, err := diam.NewConn(msc.(net.Conn), "sim", mux, simDict())
+		if err != nil {
+			e.Harness("NewConn: %v", err)
+		}
+		theConn = c
 	}
+	pinned := false
 	// ---- plan streams
 	var streams [][]c19Msg
 	var streamIDs []uint16
@@ -592,6 +623,65 @@ func c19RunX(e *Env, wide bool, sw *c19SweepCase, park bool) {
 		}
 	}
 	pos := 0
+	// flushStalledRetry: a deferred answer whose first send blocks and then fails temporarily;
+	// while it is blocked more inbound data arrives (the reader moves on), then the retry runs
+	flushStalledRetry := func() {
+		mu.Lock()
+		if len(deferred) == 0 {
+			mu.Unlock()
+			return
+		}
+		d := deferred[0]
+		deferred = deferred[1:]
+		mu.Unlock()
+		be.ArmWriteFault(&WriteFault{Kind: "stall-temp", After: t.Range(0, 40)})
+		be.SetTag(d.id)
+		done := make(chan struct{})
+		go func() {
+			defer close(done)
+			d.build().WriteToWithRetry(d.c, 2)
+		}()
+		e.Quiesce()
+		if pos < len(order) {
+			// more inbound data arrives meanwhile, but not enough to complete a message (no
+			// handler may write while the blocked send holds the one-shot fault): the reader
+			// moves into a message on (possibly) another stream
+			si := order[pos]
+			c := chunks[si][next[si]]
+			off, room := 0, len(c.data)
+			for _, m := range streams[si] {
+				off += len(m.bytes)
+				if off > fed[si] {
+					room = off - fed[si] - 1
+					break
+				}
+			}
+			if room > len(c.data) {
+				room = len(c.data)
+			}
+			if room > 0 {
+				part := sctpChunk{c.stream, c.data[:room]}
+				if room == len(c.data) {
+					next[si]++
+					pos++
+				} else {
+					chunks[si][next[si]] = sctpChunk{c.stream, c.data[room:]}
+				}
+				fed[si] += room
+				be.Feed(part)
+				e.Quiesce()
+			}
+		}
+		be.Resume()
+		e.Quiesce()
+		select {
+		case <-done:
+		default:
+			e.Fail("C19/answer-write-stuck", "a retried answer never completed")
+		}
+		e.Act("stalled-retry", "#%d", d.id)
+		e.Probe("retry-while-reader-moved-on")
+	}
 	for pos < len(order) && e.Step() {
 		k := 1
 		if sw == nil {
@@ -650,11 +740,31 @@ func c19RunX(e *Env, wide bool, sw *c19SweepCase, park bool) {
 				e.Quiesce()
 			}
 		}
+		if sw == nil && !pinned && t.Chance(1, 8) {
+			// somebody pins the writer stream of the association (stream-unaware writes then
+			// use it); answers to requests must still leave on the request's stream
+			mu.Lock()
+			cc := connSeen
+			mu.Unlock()
+			if theConn != nil {
+				cc = theConn
+			}
+			if mw, ok := cc.(diam.MultistreamWriter); ok && cc != nil {
+				mw.SetWriterStream(uint(t.Draw(16)))
+				pinned = true
+				e.Act("pin-writer-stream", "")
+				e.Probe("writer-stream-pinned")
+			}
+		}
 		if sw == nil && t.Chance(1, 2) {
 			if t.Chance(1, 3) {
 				flushConcurrent()
 			}
-			flushDeferred(1)
+			if wide && t.Chance(1, 3) && pos < len(order) {
+				flushStalledRetry()
+			} else {
+				flushDeferred(1)
+			}
 		}
 		if be.IsClosed() {
 			e.Fail("C19/association-dropped", "the library closed the association while reading valid interleaved data (log: %s)", short(e.LogText(), 200))
